@@ -12,8 +12,7 @@
    tyid_wf       what the type / id filters must look like for the shortcuts of
                  the code as it is (OptAnyValue); nothing for the repaired
                  variant (OptStringsOnly);
-   leaves        the values a dotted path reaches (declarative reading of
-                 _check_filter).                                          *)
+   (path_values, the values a dotted path reaches, is in Proofs/FiltersLaws.v) *)
 From Coq Require Import NArith ZArith List String Bool Permutation.
 From V Require Import Base.UString Model.Filters.
 Import ListNotations.
@@ -88,35 +87,4 @@ Definition auth_pass (a : auth) (x : ustring) : Prop :=
   match a with
   | Auth true vals => In (VStr x) vals
   | Auth false vals => ~ In (VStr x) vals
-  end.
-
-(* ---- declarative reading of a dotted path ---- *)
-
-(* the values a path reaches: at every step a list stands for its elements;
-   None where the code raises (a step into something that is not a mapping) *)
-Fixpoint leaves (segs : list ustring) (o : pv) : option (list pv) :=
-  match segs with
-  | [] => None
-  | p :: rest =>
-      match o with
-      | VDict m =>
-          match plookup p m with
-          | None => Some []
-          | Some x =>
-              let elems := match x with VList l => l | _ => [x] end in
-              match rest with
-              | [] => Some elems
-              | _ :: _ =>
-                  (fix go (l : list pv) : option (list pv) :=
-                     match l with
-                     | [] => Some []
-                     | e :: l' => match leaves rest e, go l' with
-                                  | Some a, Some b => Some (a ++ b)%list
-                                  | _, _ => None
-                                  end
-                     end) elems
-              end
-          end
-      | _ => None
-      end
   end.
